@@ -229,6 +229,23 @@ example : splitOff ⟨16, 8⟩ ⟨Vec.mk' [1, 2, 3, 4, 5, 6] 2, 4096⟩ 1 3 =
 example : (⟨Vec.mk' [1, 2, 3, 4, 5, 6] 2, 4096⟩ : Part).Holds [1, 2, 3, 4, 5, 6] := by
   refine ⟨by decide, by decide⟩
 
+/-- `merge` of two boxed slices of a ZERO-SIZED type (`bump_box.rs` l.2207-2220: both operands go through
+    `into_raw`, i.e. NEITHER is dropped, the result has the sum of the lengths): no destructor runs, nothing is
+    lost — and dropping the merged slice afterwards runs exactly `a.len + b.len` destructors, once each -/
+theorem zst_merge_partitions (a b : Zst.ZVec) (bomb : Option Nat) (u : Bool) :
+    (Zst.merge a b).len = a.len + b.len ∧ (Zst.merge a b).drops = a.drops + b.drops ∧
+      (Zst.merge a b).total = a.total + b.total ∧
+      (Zst.dropVec (Zst.merge a b) bomb u).1.drops = a.drops + b.drops + (a.len + b.len) ∧
+      (Zst.dropVec (Zst.merge a b) bomb u).1.len = 0 := by
+  simp only [Zst.merge, Zst.ZVec.total, Zst.dropVec, Zst.dropN, true_and, and_true]
+  omega
+
+/-- what the missing `other.into_raw()` would do: `other` is dropped at the end of `merge` AND again inside the
+    merged slice — `b.len` destructor calls too many -/
+example : (Zst.dropVec (Zst.merge { len := 2 } { len := 3 }) none false).1.drops = 5 ∧
+    (Zst.dropVec (Zst.merge { len := 2 } (Zst.dropVec { len := 3 } none false).1 |> fun m => { m with len := 5 }) none false).1.drops = 8 := by
+  decide
+
 /-! ## `into_flattened` (`Coll/Flatten.lean`): `len` arrays of `N` become `len * N` elements -/
 
 /-- `into_flattened` of a well-formed vector of arrays (`BumpBox<[[T;N]]>`, `FixedBumpVec`, `BumpVec`, `MutBumpVec`):
